@@ -29,6 +29,12 @@ def plan(ctx):
         for ln in ([0, 1, unit, 2 * unit + 1] if not thorough else list(range(0, 2 * unit + 2))):
             obs.append(l2_ob(be, k, m, hd, avail_orders(n, emax, "rev"), ln=ln, tag="l2len"))
         obs.append(l2_ob(be, k, m, hd, avail_orders(n, emax, "dup"), ln=unit + 1, tag="l2dup"))
+        # 16-byte-unaligned fragment buffers: every survivor unaligned / only the parities / only the data, for a data erasure and a parity erasure
+        for e in ((0,), (n - 1,)):
+            surv = avail_orders(n, e, "rev")
+            par_mask = sum(1 << i for i, f in enumerate(surv) if f >= k)
+            for ua in sorted({(1 << len(surv)) - 1, par_mask, ((1 << len(surv)) - 1) & ~par_mask} - {0}):
+                obs.append(l2_ob(be, k, m, hd, surv, ln=unit + 1, unalign=ua, tag="l2unal"))
         obs.append(l2_ob(be, k, m, hd, list(range(n))[::-1] + [0], ln=unit + 1, tag="l2surplus"))
         obs.append(l2_ob(be, k, m, hd, avail_orders(n, emax, "rev"), ln=unit + 1, ct=2, force=1, tag="l2force"))
         obs.append(l2_ob(be, k, m, hd, avail_orders(n, (), "rot"), ln=unit + 1, ct=2, force=1, tag="l2force"))
@@ -60,7 +66,7 @@ def plan(ctx):
             obs.append(be_l1_ob(XOR, k, m, hd, ch, idx=i))
     return {"obs": obs,
             "assumptions": ["L2: fragments come from the independent serializer (encode side is C07); input length enumerated, content symbolic",
-                            "buffer alignment is nondeterministic in CBMC's memory model: aligned and realigned paths are both explored",
+                            "unaligned fragment buffers: offset-1 pointers into one-byte-larger objects (all survivors / parities only / data only); CBMC treats fresh objects as aligned",
                             "L1 shapes with k>2 use the split oracle (D6): free symbolic survivors vs model linear algebra whose inverse is checked concretely",
                             "flat-XOR at the public API is outside reach (no verdict in 400 s for (3,3,3)); it is covered at the back-end op interface plus the shared front-end glue on RS/ISA-L shapes",
                             "payload: 1 word per fragment at L1; <= 2 blocks at L2"],
